@@ -798,3 +798,441 @@ func sortStrings(s []string) {
 		}
 	}
 }
+
+// RW5 (C28): constant-index expressions in the experimental lexer, its error-token diagnostics and
+// the experimental parser are guarded by a length test of the same expression (or reviewed).
+func rw5ConstIndexExperimental(w *World) {
+	constIndexGuards(w, "RW5", []string{"experimental/internal/lexer", "experimental/internal/errtoken", "experimental/parser"},
+		func(string) bool { return true },
+		map[string]string{
+			"errtoken.ImpureString.Diagnose|e.Token.Text()[0]": "the token is a string literal token: its text starts with the opening quote, so it is never empty",
+		},
+		3, "on malformed input the index is out of range, the panic is caught by CatchICE and reported as an internal compiler error")
+}
+
+// RW3 (C28, C29): a decode failure is RuneError *with width 1*. utf8.DecodeRune* returns
+// (RuneError, 1) for invalid input and (RuneError, 0) for empty input, but (RuneError, 3) for a
+// correctly encoded U+FFFD, which is a legal character in a Protobuf file. In the experimental
+// lexer and the string helper it decodes with (internal/ext/stringsx), every comparison of a rune
+// with utf8.RuneError must be qualified, in the same condition, by a test of the decoded width
+// (n < 2, n == 1, n <= 1, n == 0): otherwise a literal U+FFFD reads as "end of input / invalid",
+// the cursor stops advancing and the lexer reports an internal error or truncates the stream.
+func rw3RuneErrorWidth(w *World) {
+	w.rule("RW3")
+	n := 0
+	for _, rel := range []string{"experimental/internal/lexer", "internal/ext/stringsx"} {
+		p := w.pkg(rel)
+		if p == nil {
+			continue
+		}
+		info := p.TypesInfo
+		for _, b := range allFuncBodies(p) {
+			if b.Lit != nil {
+				continue
+			}
+			parents := parentMap(b.Decl)
+			ast.Inspect(b.Body, func(x ast.Node) bool {
+				be, ok := x.(*ast.BinaryExpr)
+				if !ok || (be.Op != token.EQL && be.Op != token.NEQ) {
+					return true
+				}
+				isRE := func(e ast.Expr) bool {
+					sel, ok := ast.Unparen(e).(*ast.SelectorExpr)
+					if !ok || sel.Sel.Name != "RuneError" {
+						return false
+					}
+					if c, ok := info.Uses[sel.Sel].(*types.Const); ok && c.Pkg() != nil && c.Pkg().Path() == "unicode/utf8" {
+						return true
+					}
+					return false
+				}
+				if !isRE(be.X) && !isRE(be.Y) {
+					return true
+				}
+				n++
+				key := "rune-error-width|" + b.Label + "|" + types.ExprString(be)
+				// the enclosing boolean expression (up through && / ||) must also compare an
+				// integer variable with a constant 0, 1 or 2 (the width)
+				var top ast.Node = be
+				for {
+					pe, ok := parents[top].(*ast.BinaryExpr)
+					if ok && (pe.Op == token.LAND || pe.Op == token.LOR) {
+						top = pe
+						continue
+					}
+					if par, ok := parents[top].(*ast.ParenExpr); ok {
+						top = par
+						continue
+					}
+					break
+				}
+				qualified := false
+				ast.Inspect(top, func(y ast.Node) bool {
+					c, ok := y.(*ast.BinaryExpr)
+					if !ok || c == be {
+						return true
+					}
+					switch c.Op {
+					case token.LSS, token.LEQ, token.EQL, token.GTR, token.GEQ, token.NEQ:
+						tv, ok := info.Types[c.Y]
+						if !ok || tv.Value == nil {
+							return true
+						}
+						if t := info.TypeOf(c.X); t != nil {
+							if bt, ok := t.Underlying().(*types.Basic); ok && bt.Kind() == types.Int {
+								switch tv.Value.String() {
+								case "0", "1", "2":
+									qualified = true
+								}
+							}
+						}
+					}
+					return true
+				})
+				if qualified {
+					w.ok(key, be.Pos(), "the RuneError test is qualified by the decoded width")
+				} else {
+					w.violation(key, be.Pos(), "a rune is compared with utf8.RuneError without looking at the decoded width: a correctly encoded U+FFFD (width 3) is indistinguishable from a decode failure here, so valid input containing it is treated as invalid / as the end of the input")
+				}
+				return true
+			})
+		}
+	}
+	w.floor("comparisons with utf8.RuneError in the lexer and its string helpers", n, 3)
+}
+
+// RW4 (C28): pointer parameters that receive a literal nil are tested before they are
+// dereferenced. For every function of experimental/parser that some static call site calls with
+// nil for a pointer parameter P, each dereference of P (*P, P.field, or a call of a method with a
+// value receiver through P) must be dominated by P != nil (must-dataflow with branch facts; the
+// false edge of `… || P == nil` counts).
+func rw4NilParamDeref(w *World) {
+	w.rule("RW4")
+	p := w.pkg("experimental/parser")
+	if p == nil {
+		return
+	}
+	info := p.TypesInfo
+	// (callee, param index) pairs that receive nil
+	type pi struct {
+		f *types.Func
+		i int
+	}
+	nilAt := map[pi]token.Pos{}
+	for _, b := range allFuncBodies(p) {
+		ast.Inspect(b.Body, func(x ast.Node) bool {
+			c, ok := x.(*ast.CallExpr)
+			if !ok {
+				return true
+			}
+			f := callee(info, c)
+			if f == nil || f.Pkg() != p.Types {
+				return true
+			}
+			for i, a := range c.Args {
+				if isNilIdent(info, a) {
+					if _, seen := nilAt[pi{f, i}]; !seen {
+						nilAt[pi{f, i}] = a.Pos()
+					}
+				}
+			}
+			return true
+		})
+	}
+	nPairs := 0
+	for k, at := range nilAt {
+		d := w.decls[k.f]
+		if d == nil || d.Body == nil {
+			continue
+		}
+		var pobj types.Object
+		idx := 0
+		for _, fl := range d.Type.Params.List {
+			for _, nm := range fl.Names {
+				if idx == k.i {
+					pobj = info.Defs[nm]
+				}
+				idx++
+			}
+		}
+		if pobj == nil {
+			continue
+		}
+		if _, isPtr := pobj.Type().Underlying().(*types.Pointer); !isPtr {
+			continue
+		}
+		nPairs++
+		g := buildCFG(info, d.Body)
+		df := &Dataflow{G: g, Must: true, Init: Facts{}}
+		df.Transfer = func(nd ast.Node, in Facts) Facts {
+			if as, ok := nd.(*ast.AssignStmt); ok {
+				for _, l := range as.Lhs {
+					if id, ok := l.(*ast.Ident); ok && info.Uses[id] == pobj {
+						return in.without("nonnil")
+					}
+				}
+			}
+			return in
+		}
+		df.Branch = func(leaf ast.Expr, truth bool, s Facts) Facts {
+			be, ok := ast.Unparen(leaf).(*ast.BinaryExpr)
+			if !ok || (be.Op != token.EQL && be.Op != token.NEQ) {
+				return s
+			}
+			var id *ast.Ident
+			if isNilIdent(info, be.Y) {
+				id, _ = ast.Unparen(be.X).(*ast.Ident)
+			} else if isNilIdent(info, be.X) {
+				id, _ = ast.Unparen(be.Y).(*ast.Ident)
+			}
+			if id == nil || info.Uses[id] != pobj {
+				return s
+			}
+			if (be.Op == token.NEQ) == truth {
+				return s.with("nonnil")
+			}
+			return s
+		}
+		df.Run()
+		label := funcName(k.f) + "|" + pobj.Name()
+		bad := 0
+		df.Walk(func(_ *cfg.Block, nd ast.Node, before Facts) {
+			ast.Inspect(nd, func(y ast.Node) bool {
+				if _, isLit := y.(*ast.FuncLit); isLit {
+					return false
+				}
+				deref := false
+				var at ast.Node
+				switch e := y.(type) {
+				case *ast.StarExpr:
+					if id, ok := ast.Unparen(e.X).(*ast.Ident); ok && info.Uses[id] == pobj {
+						deref, at = true, e
+					}
+				case *ast.SelectorExpr:
+					if id, ok := ast.Unparen(e.X).(*ast.Ident); ok && info.Uses[id] == pobj {
+						if sel := info.Selections[e]; sel != nil {
+							switch sel.Kind() {
+							case types.FieldVal:
+								deref, at = true, e
+							case types.MethodVal:
+								if m, ok := sel.Obj().(*types.Func); ok {
+									if recv := m.Type().(*types.Signature).Recv(); recv != nil {
+										if _, ptrRecv := recv.Type().(*types.Pointer); !ptrRecv || sel.Indirect() {
+											deref, at = true, e
+										}
+									}
+								}
+							}
+						}
+					}
+				}
+				if !deref {
+					return true
+				}
+				st := df.withinExprState(nd, at, before)
+				if !st["nonnil"] {
+					bad++
+					w.violation("nil-param-deref|"+label+"|"+types.ExprString(at.(ast.Expr)), at.Pos(), fmt.Sprintf("%s is dereferenced without a dominating %s != nil test, but the call at %s passes nil for it: the parser panics (caught and reported as an internal compiler error) on that input shape", pobj.Name(), pobj.Name(), w.pos(at0(nilAt[k], at))))
+				}
+				return true
+			})
+		})
+		if bad == 0 {
+			w.ok("nil-param-deref|"+label, d.Pos(), fmt.Sprintf("every dereference of %s is dominated by a nil test (nil is passed at %s)", pobj.Name(), w.pos(at)))
+		}
+	}
+	w.floor("(function, pointer parameter) pairs of experimental/parser that receive a literal nil", nPairs, 2)
+}
+
+func at0(p token.Pos, _ ast.Node) token.Pos { return p }
+
+// RV4 (C29): consumed text is never dropped. The lexer methods that advance the cursor and hand
+// back the text they consumed (computed: methods of *lexer that assign the cursor and return a
+// string) are the only record of those bytes; a token is later pushed with the length of that
+// text. A variable holding such a result must not be overwritten before it has been read:
+// otherwise the bytes the cursor already passed are pushed by nobody and every later token is
+// shifted (tokens no longer tile the input). May-dataflow: fact "unread:v" from `v := l.take…()`,
+// killed by any read of v; an assignment to v with the fact alive is a violation.
+func rv4ConsumedTextNotDropped(w *World) {
+	w.rule("RV4")
+	const rel = "experimental/internal/lexer"
+	p := w.pkg(rel)
+	cursorFld := w.field(rel, "lexer", "cursor")
+	if p == nil || cursorFld == nil {
+		return
+	}
+	info := p.TypesInfo
+	// consuming methods
+	consuming := map[*types.Func]bool{}
+	for _, b := range allFuncBodies(p) {
+		if b.Lit != nil || b.Decl.Recv == nil {
+			continue
+		}
+		sig := b.Obj.Type().(*types.Signature)
+		if sig.Results().Len() == 0 {
+			continue
+		}
+		if bt, ok := sig.Results().At(0).Type().Underlying().(*types.Basic); !ok || bt.Info()&types.IsString == 0 {
+			continue
+		}
+		advances := false
+		ast.Inspect(b.Body, func(x ast.Node) bool {
+			switch s := x.(type) {
+			case *ast.AssignStmt:
+				for _, l := range s.Lhs {
+					if selField(info, l) == cursorFld {
+						advances = true
+					}
+				}
+			case *ast.IncDecStmt:
+				if selField(info, s.X) == cursorFld {
+					advances = true
+				}
+			case *ast.CallExpr:
+				if f := callee(info, s); f != nil && f.Name() == "pop" {
+					advances = true
+				}
+			}
+			return true
+		})
+		if advances {
+			consuming[b.Obj] = true
+		}
+	}
+	w.floor("cursor-advancing text-returning lexer methods", len(consuming), 3)
+	nSites, nBad := 0, 0
+	for _, b := range allFuncBodies(p) {
+		if b.Lit != nil {
+			continue
+		}
+		has := false
+		ast.Inspect(b.Body, func(x ast.Node) bool {
+			if c, ok := x.(*ast.CallExpr); ok {
+				if f := callee(info, c); f != nil && consuming[f] {
+					has = true
+				}
+			}
+			return true
+		})
+		if !has {
+			continue
+		}
+		consumedInto := func(nd ast.Node) (types.Object, bool) {
+			as, ok := nd.(*ast.AssignStmt)
+			if !ok || len(as.Rhs) != 1 || len(as.Lhs) < 1 {
+				return nil, false
+			}
+			c, ok := ast.Unparen(as.Rhs[0]).(*ast.CallExpr)
+			if !ok {
+				return nil, false
+			}
+			f := callee(info, c)
+			if f == nil || !consuming[f] {
+				return nil, false
+			}
+			id, ok := as.Lhs[0].(*ast.Ident)
+			if !ok || id.Name == "_" {
+				return nil, false
+			}
+			o := info.Defs[id]
+			if o == nil {
+				o = info.Uses[id]
+			}
+			return o, o != nil
+		}
+		g := buildCFG(info, b.Body)
+		df := &Dataflow{G: g, Must: false, Init: Facts{}}
+		reads := func(nd ast.Node, skipLhs bool) map[types.Object]bool {
+			out := map[types.Object]bool{}
+			var lhs map[*ast.Ident]bool
+			if as, ok := nd.(*ast.AssignStmt); ok && skipLhs {
+				lhs = map[*ast.Ident]bool{}
+				for _, l := range as.Lhs {
+					if id, ok := l.(*ast.Ident); ok {
+						lhs[id] = true
+					}
+				}
+			}
+			ast.Inspect(nd, func(y ast.Node) bool {
+				if id, ok := y.(*ast.Ident); ok && !lhs[id] {
+					if o := info.Uses[id]; o != nil {
+						out[o] = true
+					}
+				}
+				return true
+			})
+			return out
+		}
+		df.Transfer = func(nd ast.Node, in Facts) Facts {
+			out := in
+			for o := range reads(nd, true) {
+				out = out.without("unread:" + o.Name())
+			}
+			if o, ok := consumedInto(nd); ok {
+				out = out.with("unread:" + o.Name())
+			}
+			return out
+		}
+		// `text, ok := l.seek…()`: on the !ok edge nothing was consumed
+		okOf := map[types.Object]types.Object{}
+		ast.Inspect(b.Body, func(x ast.Node) bool {
+			if as, isAs := x.(*ast.AssignStmt); isAs && len(as.Lhs) == 2 {
+				if o, isCons := consumedInto(as); isCons {
+					if id, isId := as.Lhs[1].(*ast.Ident); isId && id.Name != "_" {
+						k := info.Defs[id]
+						if k == nil {
+							k = info.Uses[id]
+						}
+						if k != nil {
+							okOf[k] = o
+						}
+					}
+				}
+			}
+			return true
+		})
+		df.Branch = func(leaf ast.Expr, truth bool, s Facts) Facts {
+			if id, isId := ast.Unparen(leaf).(*ast.Ident); isId && !truth {
+				if o, has := okOf[info.Uses[id]]; has {
+					return s.without("unread:" + o.Name())
+				}
+			}
+			return s
+		}
+		df.Run()
+		df.Walk(func(_ *cfg.Block, nd ast.Node, before Facts) {
+			as, ok := nd.(*ast.AssignStmt)
+			if !ok {
+				return
+			}
+			rd := reads(nd, true)
+			for _, l := range as.Lhs {
+				id, ok := l.(*ast.Ident)
+				if !ok {
+					continue
+				}
+				o := info.Uses[id]
+				if o == nil {
+					o = info.Defs[id]
+				}
+				if o == nil {
+					continue
+				}
+				if _, isCons := consumedInto(nd); isCons || before["unread:"+o.Name()] {
+					nSites++
+				}
+				if as.Tok == token.DEFINE && info.Defs[id] == o {
+					continue // a fresh variable instance (re-executed declaration), not an overwrite
+				}
+				if before["unread:"+o.Name()] && !rd[o] {
+					nBad++
+					w.violation("consumed-text-dropped|"+b.Label+"|"+o.Name(), as.Pos(), o.Name()+" still holds text that the cursor has already passed (returned by a cursor-advancing lexer method and not read since) when it is overwritten here: those bytes are never pushed as a token, so the token stream no longer tiles the input")
+				}
+			}
+		})
+	}
+	w.floor("assignments of consumed text in the lexer", nSites, 3)
+	if nBad == 0 {
+		w.ok("consumed-text-dropped", token.NoPos, fmt.Sprintf("none of the %d variables assigned from a cursor-advancing method is overwritten before it is read", nSites))
+	}
+}
